@@ -251,6 +251,32 @@ void vf_harness(void) { const char* x; stream_cstr(x); VF_CANARY(); }
 )
 UNITS += [file_put, tf_stream]
 
+# ---- TextFile::write(text): the file is opened for writing (created / truncated) for EVERY text, the empty one included
+tf_write = Unit(
+    'TextFile_write', 'C17',
+    cuts=[Cut('tw', TF, r'^bool TextFile::write\(const String& s\)\s*$',
+              rules=[(r'(?<![\w.>])open\(WRITE\)', 'VF_OPENW()', None), (r'(?<![\w.>])_file\b(?!\))', 'g_open', None), (r'\(int\)fwrite\(\*s, 1, s\.length\(\), g_open\)', 'VF_FWRITE(g_n)', None), (r'\(int\)fwrite\(\*s, 1, s\.length\(\), _file\)', 'VF_FWRITE(g_n)', None),
+                     (r's\.length\(\)', 'g_n', None), (r'return ([^;]*);', r'{ g_ret = (\1); return; }', None)])],
+    text=PRE + r"""
+int g_n, g_open, g_opened_w, g_written, g_ret;
+static bool VF_OPENW(void) { if (nondet_bool()) return false; g_open = 1; g_opened_w = 1; return true; }
+static int VF_FWRITE(int n) { __CPROVER_assert(g_open, "fwrite on an open file"); int r = nondet_int(); __CPROVER_assume(0 <= r && r <= n); g_written = r; return r; }
+void TextFile_write(void)
+__CPROVER_requires(0 <= g_n && g_n <= 1000000000 && (g_open == 0 || g_open == 1) && g_opened_w == 0 && g_written == 0 && g_ret == -1)
+__CPROVER_ensures(g_ret == 1 ==> ((__CPROVER_old(g_open) || g_opened_w) && g_written == g_n))
+__CPROVER_ensures(g_ret == 0 || g_ret == 1)
+__CPROVER_assigns(g_open, g_opened_w, g_written, g_ret)
+@@tw@@
+void vf_harness(void) { TextFile_write(); VF_CANARY(); }
+""",
+    entry='TextFile_write',
+    desc='TextFile::write(text) for any length including 0: success only after the file was opened for writing (an existing file is truncated also by the empty text) and all characters were written',
+    functions=['TextFile::write(const String&)'], trusted=['open(WRITE) creates / truncates; fwrite returns the count written'],
+)
+# text() of UTF-16 files converts with utf16toUtf8: C08's per-scalar-value unit (every code point, surrogate pairs of all planes) is re-run here
+from units.C08 import per_value as _c08_value
+UNITS += [tf_write, _c08_value]
+
 # replay: turn units have no direct native input; the driver's battery (lines of every length 0..1100 with LF / CRLF / lone CR / no final newline, byte round trips around
 # 255 and 65536, write - size() - write - close - append histories on one object, the three BOM encodings) runs on the real library instead
 for _u in UNITS:
